@@ -7,6 +7,8 @@ the message names the branch that fired; limit bookkeeping pairs iterations with
 generations and evaluations with evaluations; wrappers' warnflag; who may write
 the exit flag.  Round 3: every re-decoration continues the evaluation counter (shared with
 C04.b), so the evaluation limit bounds the total.
+Round 4: the EvaluationLimits termination condition answers per its documented
+predicate (a limit of 0 is a limit).
 NOT decided: that Solve returns for every cost, the size of the
 evaluation overshoot.
 """
